@@ -484,6 +484,8 @@ def selftest_seeded(ids):
     for sid in sorted(os.listdir(root)):
         if ids and sid not in ids: continue
         meta = json.load(open(os.path.join(root, sid, "meta.json")))
+        if meta.get("stale") and sh(["git", "-C", os.environ.get("REPO", "/repo"), "apply", "--check", os.path.join(root, sid, "patch.diff")]).returncode != 0:
+            print("seeded/%-10s stale: %s" % (sid, meta["stale"][:160])); continue
         if meta.get("expect") == "quiet":
             # a behaviour-preserving change: every registered check must stay silent
             r = sh([os.path.join(HERE, "checks", "mutcheck.sh"), os.path.join(root, sid, "patch.diff")] + sorted(JOBS), timeout=7200)
